@@ -156,6 +156,10 @@ func (g *G) signersFor(msgs []sdk.Msg, exec int, right int, aminoOK bool) ([]sim
 	if g.chance("right-signers", right) {
 		return mk(req), "right"
 	}
+	if len(req) >= 2 && g.chance("single-signer", 45) {
+		// e.g. an add-record with a named fee payer signed by the writer alone, or by the payer alone
+		return mk([]int{req[g.intn("which-single", len(req))]}), "one-of-required"
+	}
 	switch g.weighted("wrong-signers", "other", 4, "swap", 2, "drop", 2, "garbage", 2, "seq", 2, "extra", 1) {
 	case "other":
 		idx := append([]int{}, req...)
